@@ -167,18 +167,29 @@ def prelude_queries(chk):
     qs.append(xc.Q("c14_prelude_gcd", enc, decl, rng, prop, "|a|, |b| <= %d, recursion unrolled 8 (quick) / 10 (thorough) levels (deeper paths excluded and counted)" % B,
                    "include.rs: gcd (helper), abs"))
 
+    enc = xr2smt.Enc(fns, structs, rec_bound=8 if chk.tier == "quick" else 10)
+    lc = call(enc, "lcm", "a", "b")
+    g2 = call(enc, "gcd", "a", "b")
+    # lcm * gcd = |a*b| and lcm >= 0 (operands not both zero: the book documents lcm(0,0) separately)
+    qs.append(xc.Q("c14_prelude_lcm", enc, decl, rng + ["(not (and (= a 0) (= b 0)))"],
+                   "(and (>= {l} 0) (= (* {l} {g}) (ite (>= (* a b) 0) (* a b) (- (* a b)))))".format(l=T(lc), g=T(g2)),
+                   "|a|, |b| <= %d, not both zero" % B, "include.rs: lcm, gcd, abs"))
+
     def replay_gcd(model):
         a, b = model.get("a"), model.get("b")
         import math
         lit = lambda v: "(-%d)" % -v if v < 0 else str(v)  # noqa
-        s = "let g = gcd(%s, %s); let s = sign(%s); let m = abs(%s);" % (lit(a), lit(b), lit(a), lit(a))
-        spec = dict(source=s, bindings=["g", "s", "m"])
+        s = "let g = gcd(%s, %s); let s = sign(%s); let m = abs(%s); let l = lcm(%s, %s);" % (lit(a), lit(b), lit(a), lit(a), lit(a), lit(b))
+        spec = dict(source=s, bindings=["g", "s", "m", "l"])
         got = core.Native.get().run(spec)
         if got.get("panic"):
             return spec, "interpreter panicked: %s" % got["panic"]
         v = got.get("values", {})
         if v.get("g") != {"int": str(math.gcd(a, b))}:
             return spec, "gcd(%d, %d) = %s, expected %d" % (a, b, v.get("g"), math.gcd(a, b))
+        want_l = abs(a * b) // math.gcd(a, b) if (a or b) else 0
+        if v.get("l") != {"int": str(want_l)}:
+            return spec, "lcm(%d, %d) = %s, expected %d" % (a, b, v.get("l"), want_l)
         if v.get("m") != {"int": str(abs(a))} or v.get("s") != {"int": str((a > 0) - (a < 0))}:
             return spec, "abs/sign(%d) = %s / %s" % (a, v.get("m"), v.get("s"))
         return spec, None
